@@ -7,7 +7,8 @@ import common
 from cases import CaseSet
 from qgen import line_query, inside_query, query3d, query2d, offsets
 from worlds import any_world
-from wbgen import PI
+from wbgen import PI, cart_point
+from qgen import TOP
 
 PROPS = [[1, 0, 0], [2, 0, 0], [2, 1, 0], [2, 2, 0], [2, 3, 0], [3, 0, 1], [4, 0, 0]]
 TAGPOS = offsets(PROPS)[0][6]
@@ -110,7 +111,22 @@ def run(chk):
         a = cs.add_world(wj)
         b = cs.add_world(w2)
         feats = wj["features"]
-        for qi in range(24):
+        # aimed at the transform faults between ridge segments: points around the middle of each transform fault
+        extra = []
+        for f in feats:
+            for m in f.get("temperature models", []):
+                rc = m.get("ridge coordinates")
+                if f["model"] == "oceanic plate" and rc and len(rc) > 1:
+                    for k in range(len(rc) - 1):
+                        p0, p1 = rc[k][-1], rc[k + 1][0]
+                        for _k in range(6):
+                            tt = rng.uniform(0.1, 0.9)
+                            sc = 0.4 * math.hypot(p1[0] - p0[0], p1[1] - p0[1])
+                            x = p0[0] + tt * (p1[0] - p0[0]) + rng.uniform(-sc, sc)
+                            y = p0[1] + tt * (p1[1] - p0[1]) + rng.uniform(-sc, sc)
+                            dd = float(round(rng.uniform(0.0, 1.0e5)))
+                            extra.append((cart_point(sph, x, y, dd, wj.get("coordinate system", {}).get("radius", 6371000.0), TOP), dd))
+        for qi in range(24 + len(extra)):
             lf = [f for f in feats if f["model"] in ("subducting plate", "fault")]
             u = rng.random()
             if lf and u < 0.5:
@@ -119,6 +135,8 @@ def run(chk):
                 q, d = inside_query(rng, wj, sph)
             else:
                 q, d = query3d(rng, wj, sph)
+            if qi >= 24:
+                q, d = extra[qi - 24]
             if d < 0:
                 continue
             i1 = cs.p3(a, q, d, PROPS)
